@@ -336,7 +336,7 @@ def run(ctx):
         c05a(ctx, tu)
         c05b(ctx, tu)
         c05c(ctx, tu)
-        protocol.report(ctx, tu, lambda r: r.startswith("C05.") or r == "C01.b")
+        protocol.report(ctx, tu, lambda r: True)   # the whole step protocol is a premise of this property
         c05e(ctx, tu)
         c05f(ctx, tu)
         bad = protocol.monitor_limits_fixed(tu)
